@@ -295,6 +295,25 @@ def run(rep, tier, seed):
                         f"disagree with the renderer", PARSER + ":parse_inline")
             if "param_3" not in seg:
                 rep.add("C12|loc|line-starts-input", "line starts are not computed from the source text", PARSER + ":parse_inline")
+    # (f) consumption conformance: the converters interpreted on every child sequence their production can produce
+    from . import c12_consume
+    res, total = c12_consume.analyse(tree, cur)
+    seen = set()
+    for r_ in res:
+        n["rules"] += r_["paths"]
+        for kind, detail in r_["findings"]:
+            key = f"C12|consume|{kind}" + ("" if "|" in kind else f"|{r_['rule']}")
+            if (key, detail) in seen:
+                continue
+            seen.add((key, detail))
+            rep.add(key, detail, PARSER + ":" + r_["fn"])
+    samples.append({"rule": "consumption conformance", "converters": [[r_["fn"], r_["rule"], r_["paths"]] for r_ in res],
+                    "paths": total})
+    if total < 120 or len(res) < 8:
+        rep.add("C12|floor|consumption", f"only {total} converter paths over {len(res)} converters interpreted (floors 120 / 8)",
+                PARSER)
+    if any(r_["paths"] >= c12_consume.MAXPATHS for r_ in res):
+        rep.add("C12|consume|path-cap", "a converter has more paths than the exploration cap", PARSER)
     finish(rep, n, samples)
 
 
@@ -302,7 +321,8 @@ def finish(rep, n, samples):
     rep.coverage.update({
         "explanation": "grammar productions compared with the confirmed normal form; integer converter prefixes vs grammar "
                        "literals; Rule arms vs grammar alternatives; who-may-call Pair::into_inner (MIR); provenance of "
-                       "every `loc` in parser.rs; line-start source agreement with the renderer.",
+                       "every `loc` in parser.rs; line-start source agreement with the renderer; abstract interpretation of every "
+                       "converter on every child sequence of its production (no valid shape rejected, no child left unconsumed).",
         "rule_instances": n["rules"], "samples": samples,
         "evaluations": n["rules"], "distinct_nontrivial": n["rules"],
     })
